@@ -204,10 +204,8 @@ Proof. intros [A B]. unfold int_exactb. rewrite A, B. reflexivity. Qed.
 Lemma conv_i64_exact n : int_exact n -> conv_i64 n = num_trunc n.
 Proof. intros [_ H]. unfold conv_i64. rewrite H. reflexivity. Qed.
 
-Lemma conv_field_int_exact b n : int_exact n -> conv_field b TInt (JNum n) = Ok (CInt (num_trunc n)).
-Proof.
-  intros H. simpl. rewrite (int_exact_b n H), (conv_i64_exact n H). simpl. rewrite andb_false_r. reflexivity.
-Qed.
+Lemma int_exactb_exact n : int_exactb n = true -> int_exact n.
+Proof. unfold int_exactb, int_exact. intros H. apply andb_prop in H. exact H. Qed.
 
 (* ---------- sat ---------- *)
 Lemma sat_ext c c' o : c = c' -> sat c o = sat c' o.
